@@ -381,6 +381,8 @@ PROPS["C18"] = {
          "thorough": {"checks": 1500, "shards": 4, "timeout": 1500}},
         {"pkg": "p2p/v030", "links": {"../test": "p2p/test"}, "run": "^TestC18Framing$", "quick": {"checks": 1500, "shards": 3, "timeout": 600}, "thorough": {"checks": 40000, "shards": 6, "timeout": 1500}},
         {"pkg": "p2p/v030", "links": {"../test": "p2p/test"}, "run": "^TestC18ReadBounded$", "quick": {"checks": 3000, "shards": 2, "timeout": 600}, "thorough": {"checks": 60000, "shards": 4, "timeout": 1500}},
+        {"pkg": "p2p", "links": {"test": "p2p/test"}, "run": "^TestC18BlockNotices$", "quick": {"checks": 600, "shards": 2, "timeout": 600}, "thorough": {"checks": 8000, "shards": 4, "timeout": 1500}},
+        {"pkg": "p2p", "links": {"test": "p2p/test"}, "run": "^TestC18HandshakeVersions$", "quick": {"checks": 1500, "shards": 2, "timeout": 600}, "thorough": {"checks": 30000, "shards": 4, "timeout": 1500}},
         {"pkg": "p2p/v200", "links": {"../test": "p2p/test"}, "run": "^TestC18Handshake$", "quick": {"checks": 1500, "shards": 3, "timeout": 600}, "thorough": {"checks": 40000, "shards": 6, "timeout": 1500}},
         {"pkg": "verifx/tree", "run": "^TestC18BlockIdentity$", "quick": {"checks": 120, "shards": 6, "timeout": 700}, "thorough": {"checks": 3000, "shards": 12, "timeout": 2400}},
     ],
@@ -508,3 +510,6 @@ _amend("C13", "level_text", "hashes are unique and the hash index equals the hel
 
 _amend("C15", "level_text", "name create/update and transfers, executed one transaction at a time",
        "name create/update and transfers (in one case out of six also the inputs of the recorded findings: unknown command names, plain payments to the staking account, a producer vote with a 156-byte peer id that repeats a producer's id; a case ends when one of them is executed, the other cases explore behind them), executed one transaction at a time")
+
+_amend("C18", "level_text", "(a) sequences of 1-6 messages",
+       "(b2) the status exchange of EVERY accepted protocol version (2.0.0, 0.3.3, 0.3.2, 0.3.1), with the handshaker the node's real version manager hands out: a status differing in one field (genesis hash by one bit / another chain's genesis / none, peer id, chain id fields) must be refused; (c2) block-produced notices through the real notice handler and the real sync manager: 0-3 notices that announce other content (own key, oversized, other header) under the identifier of a genuine block, then the producer's notice of the genuine block, which must reach the chain service; (a) sequences of 1-6 messages")
